@@ -54,6 +54,9 @@ class PWS:
         self.timeout = None
         self.fut = None
         self.waiter = None
+        self.stall = False        # set by the scenario: the peer is not reading, so the client's writes block
+        self.stalled = 0          # writers currently blocked in a write
+        self.stall_futs = []
 
 
 class ScriptedServer:
@@ -120,6 +123,14 @@ class FakeAioWS:
 
     async def _send(self, kind, data):
         await asyncio.sleep(0)
+        while self.p.stall and not self.closed:
+            f = self.w.loop.create_future()
+            self.p.stall_futs.append(f)
+            self.p.stalled += 1
+            try:
+                await f
+            finally:
+                self.p.stalled -= 1
         if self.closed or self.p.closed_by_server:
             raise ConnectionResetError('Cannot write to closing transport')
         self.p.sent.append((self.w.clock.now, self.w.nstep, kind, data))
@@ -323,6 +334,15 @@ class AsyncClientWorld:
             with self.loop.enter():
                 f.set_result(None)
 
+    def ws_release(self, s):
+        """The peer reads again: blocked writes of the client complete."""
+        s.stall = False
+        futs, s.stall_futs = s.stall_futs, []
+        for f in futs:
+            if not f.done():
+                with self.loop.enter():
+                    f.set_result(None)
+
     # ---- application side
     def call(self, name, *args, **kw):
         c = base.Call(len(self.calls), name, args)
@@ -518,6 +538,12 @@ class FakeSyncWS:
 
     def _send(self, kind, data):
         self.w.sched.point('cws.send')
+        if self.p.stall and self.connected:
+            self.p.stalled += 1
+            try:
+                self.w.sched.block(lambda: not self.p.stall or not self.connected, None, 'cws.send.stalled')
+            finally:
+                self.p.stalled -= 1
         if not self.connected or self.p.closed_by_server:
             raise WSClosed('socket is already closed.')
         self.p.sent.append((self.w.clock.now, self.w.nstep, kind, data))
@@ -723,6 +749,10 @@ class SyncClientWorld:
 
     def ws_push(self, s, item):
         s.inbox.append(item)
+
+    def ws_release(self, s):
+        """The peer reads again: blocked writes of the client complete."""
+        s.stall = False
 
     # ---- application side
     def call(self, name, *args, **kw):
